@@ -10,7 +10,7 @@ RULE = ("correspondence: generated worlds WITH random models (random composition
         "matrix is orthonormal with determinant +1 (1e-9), normalised sizes sum to one (1e-12), fixed sizes come back as given, random compositions lie in their own bounds. "
         "non-trivial = a query that consumed at least one random draw.")
 TRUSTED_BASE = ["std::mt19937 / std::generate_canonical<double,53> are modelled by hand (Model/Rng.lean) and tied to libstdc++ by the bit-for-bit correspondence only",
-                "slab and fault random grains models are not inside the Lean model; they are textual copies of the area-feature code and are covered by the oracle only"]
+                "slab and fault random grains (two section draws blended by slerp) are inside the Lean model since the second round (Model/Features/Line.lean) and are part of the correspondence; their orthonormality is a property of the oracle only (the theorems cover the area-feature draw)"]
 ASSUMPTIONS = ["rotation and size theorems are exact-arithmetic statements over ordered fields with sin^2+cos^2=1 and sqrt x * sqrt x = x as hypotheses; in doubles they hold to rounding (oracle tolerance 1e-9 / 1e-12)",
                "deflections in [0,1] and basis matrices that are rotations (the code checks neither)"]
 
